@@ -675,8 +675,6 @@ def _sum_term(E, tag, free_idx, bound, summand, dtype):
 def matmul(E, a, b, node=None):
     if a.dtype != b.dtype:
         raise_(E, "RuntimeError", f"expected m1 and m2 to have the same dtype, but got: {a.dtype} != {b.dtype}", node)
-    if a.dtype in ("float8_e4m3fn", "float8_e5m2") :
-        raise_(E, "NotImplementedError", f"matmul not implemented for '{a.dtype}'", node)
     ra, rb = len(a.shape), len(b.shape)
     if ra == 0 or rb == 0:
         raise_(E, "RuntimeError", "both arguments to matmul need to be at least 1D", node)
